@@ -379,6 +379,9 @@ def InlineRepeat(obj:Logic):
 def InlineConcatenateMSBF(obj:Logic):
     str = '' # "# MSBF \n"
     w = len(obj.ins)
+    if (w == 0):
+        # nothing to concatenate, the simulated value is 0
+        return "assign {} = 0;\n".format(getParentWireName(obj, obj.r))
     if (w == 1):
         return "assign {} = {};\n".format(getParentWireName(obj, obj.r), getParentWireName(obj, obj.ins[0]))
 
@@ -395,6 +398,9 @@ def InlineConcatenateMSBF(obj:Logic):
 def InlineConcatenateLSBF(obj:Logic):
     str = '' # "# LSBF \n"
     w = len(obj.ins)
+    if (w == 0):
+        # nothing to concatenate, the simulated value is 0
+        return "assign {} = 0;\n".format(getParentWireName(obj, obj.r))
     if (w == 1):
         return "assign {} = {};\n".format(getParentWireName(obj, obj.r), getParentWireName(obj, obj.ins[0]))
 
